@@ -22,6 +22,7 @@ let table : (string * (z list -> z list)) list = [
   ("api_fuzz", (fun _ -> [Model.Zneg (Model.XI (Model.XO (Model.XO Model.XH)))]));
   ("stroke_geo", (fun _ -> [Model.Zneg (Model.XI (Model.XO (Model.XO Model.XH)))]));
   ("gather", run_gather);
+  ("nearest_map", run_nearest_map);
   ("tiles", run_tiles);
   ("pat_px", (fun _ -> [Model.Zneg (Model.XI (Model.XO (Model.XO Model.XH)))]));
   ("grad_new", run_grad_new);
